@@ -85,6 +85,8 @@ def run(sid, props, checks=None):
     assert rc == 0, out
     results = {}
     env = dict(ENV, VERIF_REPO=wt, VERIF_OUT=outdir)
+    if MATRIX:
+        env["VERIF_KEEP_BINARY"] = f"/tmp/verif-seed-bin-{sid}.test"
     try:
         for p in props:
             cmd = [os.path.join(ROOT, "check"), p]
@@ -99,9 +101,12 @@ def run(sid, props, checks=None):
                 if line.startswith("[") and "]" in line and not line.startswith("[rapid]"):
                     clause = line[:300]
                     break
-            results[p] = {"rc": rc, "detected": rc == 1, "seconds": round(time.time() - t0, 1), "first_message": clause,
+            detected = rc == 1 and "VIOLATION property=" in out
+            if rc == 1 and not detected:
+                rc = 2
+            results[p] = {"rc": rc, "detected": detected, "seconds": round(time.time() - t0, 1), "first_message": clause,
                           "cases": checks or "quick tier default"}
-            print(sid, p, "DETECTED" if rc == 1 else ("inconclusive" if rc == 2 else "missed"), f"{time.time()-t0:.0f}s", clause[:200], flush=True)
+            print(sid, p, "DETECTED" if detected else ("inconclusive" if rc == 2 else "missed"), f"{time.time()-t0:.0f}s", clause[:200], flush=True)
     finally:
         sh(["git", "-C", "/repo", "worktree", "remove", "--force", wt])
         shutil.rmtree(wt, ignore_errors=True)
@@ -117,6 +122,10 @@ def run(sid, props, checks=None):
                     seen.add(prop)
                     shutil.copy(os.path.join(rp, f), os.path.join(keep, f"{prop}.json"))
         shutil.rmtree(outdir, ignore_errors=True)
+        try:
+            os.remove(f"/tmp/verif-seed-bin-{sid}.test")
+        except OSError:
+            pass
     meta_path = os.path.join(dst, "meta.json")
     meta = json.load(open(meta_path)) if os.path.exists(meta_path) else {"id": sid}
     old = meta.setdefault("checks", {})
